@@ -542,33 +542,6 @@ pub fn run(ctx: &Ctx) {
     let k = TOKENS.len() as u64;
     let nt = TARGETS.len();
     let pieces: &[usize] = if t == Tier::Quick { &[1] } else { &[1, 0] };
-    ctx.layer("token_soup", 0, count_upto(k, n) * 2, json!({"tokens": TOKENS, "max_tokens": n, "wrappers": ["bare", "<r>..</r>"], "targets": TARGETS.to_vec()}), |i, acc| {
-        let mut d = Vec::new();
-        decode_upto(k, n, i / 2, &mut d);
-        let mut doc = String::new();
-        if i % 2 == 1 {
-            doc.push_str("<r>");
-        }
-        for &x in &d {
-            doc.push_str(TOKENS[x as usize]);
-        }
-        if i % 2 == 1 {
-            doc.push_str("</r>");
-        }
-        acc.nt_count += 1;
-        for tt in 0..nt {
-            // the targets added for F16 (zero-consumption visitors; each endless case costs 4096 rounds) one token shallower
-            if tt >= 34 && d.len() as u32 >= n {
-                continue;
-            }
-            call(acc, (0, i), doc.as_bytes(), tt, false, 0, &known);
-            for &p in pieces {
-                call(acc, (0, i), doc.as_bytes(), tt, true, p, &known);
-            }
-        }
-        acc.sample(seed, i, || json!({"document": doc}));
-    });
-
     // nesting soup: longer sequences over the six tokens that decide nesting, into the targets that skip
     // content (unit, IgnoredAny, unknown fields, tuples of them) or count on matched tags
     const NEST: [&str; 6] = ["<a>", "</a>", "<b>", "</b>", "t", "<a/>"];
@@ -668,6 +641,33 @@ pub fn run(ctx: &Ctx) {
                 call(acc, (1, i), input, tt, false, 0, &known);
             }
         }
+    });
+    // the big layer last: on a saturated machine a time cap then costs its tail, not a whole small layer
+    ctx.layer("token_soup", 0, count_upto(k, n) * 2, json!({"tokens": TOKENS, "max_tokens": n, "wrappers": ["bare", "<r>..</r>"], "targets": TARGETS.to_vec()}), |i, acc| {
+        let mut d = Vec::new();
+        decode_upto(k, n, i / 2, &mut d);
+        let mut doc = String::new();
+        if i % 2 == 1 {
+            doc.push_str("<r>");
+        }
+        for &x in &d {
+            doc.push_str(TOKENS[x as usize]);
+        }
+        if i % 2 == 1 {
+            doc.push_str("</r>");
+        }
+        acc.nt_count += 1;
+        for tt in 0..nt {
+            // the targets added for F16 (zero-consumption visitors; each endless case costs 4096 rounds) one token shallower
+            if tt >= 34 && d.len() as u32 >= n {
+                continue;
+            }
+            call(acc, (0, i), doc.as_bytes(), tt, false, 0, &known);
+            for &p in pieces {
+                call(acc, (0, i), doc.as_bytes(), tt, true, p, &known);
+            }
+        }
+        acc.sample(seed, i, || json!({"document": doc}));
     });
 }
 
